@@ -265,7 +265,7 @@ func registerAll() {
 
 func TestPropPatterns(t *testing.T) {
 	registerAll()
-	ev.Rapid(t, "patterns", ev.N(4000, 30000), func(t *rapid.T) Case {
+	ev.Rapid(t, "patterns", ev.N(10000, 30000), func(t *rapid.T) Case {
 		p := genSeq(t, 2)
 		s := "/" + p + "/"
 		switch rapid.IntRange(0, 5).Draw(t, "wrap") {
